@@ -1244,3 +1244,189 @@ func ruleC01(c *Ctx, r *Report) {
 		r.undecided(rule, "proxy/router", "eqstart:implementations", "-", fmt.Sprintf("expected the range/date EqualStart implementations, found %d", ne))
 	}
 }
+
+// ---------------------------------------------------------------------------------------
+// C02 — cross-shard SELECT: structure of the merge
+
+func init() {
+	register("C02", "Clauses decided (structure of the cross-shard merge, each necessary for the statement; the merged values themselves are NOT decided): (pipeline) MergeSelectResult concatenates the shard results, then removes duplicates (DISTINCT), folds groups / top-level aggregates, then sorts, then cuts LIMIT/OFFSET, then trims the helper columns — in that order, each step on the nil-error edge of the previous one; (extra) every function that appends helper columns to the select list for the shards (GROUP BY / ORDER BY expressions) is followed, before the SQL is generated, by the registration of an aggregate merger for appended columns that are aggregates (an ORDER BY SUM(x) column that is not merged makes the rows come back ordered by one shard's partial sum); (limit) when the statement has GROUP BY the LIMIT is not sent to the shards (a shard's first n groups are not the table's first n groups, and a group cut off on one shard is aggregated from the others only) — reported on the pinned tree as a known finding; (first) the first of several shard results is never returned alone (PC5d). Row values, NULL ordering, collations, DISTINCT aggregates, UNION and joins are not covered.",
+		ruleC02, ruleC39d)
+}
+
+func ruleC02(c *Ctx, r *Report) {
+	const rule = "MP-C02"
+	r.floor(rule, 8)
+	merge := c.Func(planRel, "MergeSelectResult")
+	hs := c.Func(planRel, "HandleSelectStmt")
+	hlimit := c.Func(planRel, "handleLimit")
+	setMerger := c.Method(planRel, "SelectPlan", "setAggregateFuncMerger")
+	gen := c.Func(planRel, "generateShardingSQLs")
+	if merge == nil || hs == nil || hlimit == nil || setMerger == nil || gen == nil {
+		r.undecided(rule, planRel, "anchor", "-", "MergeSelectResult / HandleSelectStmt / handleLimit / setAggregateFuncMerger / generateShardingSQLs not all found")
+		return
+	}
+	// ---- (pipeline)
+	{
+		name := c.FuncName(merge)
+		steps := []string{"mergeMultiResultSet", "removeDistinctRowInResult", "buildSelectGroupByResult|buildSelectOnlyResult", "sortSelectResult", "limitSelectResult", "trimExtraFields"}
+		find := func(alt string) []ssa.Instruction {
+			var out []ssa.Instruction
+			for _, n := range strings.Split(alt, "|") {
+				if f := c.Func(planRel, n); f != nil {
+					out = append(out, callsIn(merge, func(cc *ssa.CallCommon) bool { return callsFunc(cc, f) })...)
+				}
+			}
+			return out
+		}
+		var prev []ssa.Instruction
+		prevName := ""
+		for _, st := range steps {
+			cur := find(st)
+			if len(cur) == 0 {
+				r.viol(rule, name, "pipeline:"+st, c.Pos(merge.Pos()), "the merge step "+st+" is missing")
+				continue
+			}
+			if prev != nil {
+				good := true
+				for _, cinst := range cur {
+					for _, pinst := range prev {
+						// the later step never runs before the earlier one, and is reachable from it
+						before := cinst.Block() != pinst.Block() && blockReachable(cinst.Block(), pinst.Block())
+						sameBlockBefore := cinst.Block() == pinst.Block() && instrIndex(cinst) < instrIndex(pinst)
+						if before || sameBlockBefore {
+							good = false
+						}
+						// a failed earlier step does not fall through into the later one
+						if pc, ok := pinst.(*ssa.Call); ok && errResultOf(pc) != nil {
+							for _, e := range errNilEdgesOfCall(pc) {
+								if e.Val {
+									continue
+								}
+								eb := e.If.Block().Succs[e.Succ]
+								if eb == cinst.Block() || blockReachable(eb, cinst.Block()) {
+									good = false
+								}
+							}
+						}
+					}
+					reach := false
+					for _, pinst := range prev {
+						if pinst.Block() == cinst.Block() || blockReachable(pinst.Block(), cinst.Block()) {
+							reach = true
+						}
+					}
+					if !reach {
+						good = false
+					}
+				}
+				if good {
+					r.ok(rule, name, "pipeline:"+prevName+"->"+st, c.Pos(cur[0].Pos()), "runs after "+prevName+" (on its nil-error edge)")
+				} else {
+					r.viol(rule, name, "pipeline:"+prevName+"->"+st, c.Pos(cur[0].Pos()), st+" does not run after "+prevName+" succeeded: e.g. cutting LIMIT before sorting, or sorting before the groups are folded, returns other rows than a single database would")
+				}
+			}
+			prev, prevName = cur, st
+		}
+	}
+	// ---- (extra)
+	{
+		name := c.FuncName(hs)
+		fFields := c.Field("parser/ast", "FieldList", "Fields")
+		// appenders: callees of HandleSelectStmt that store an append(...) into FieldList.Fields
+		isAppender := func(f *ssa.Function) bool {
+			if f == nil || len(f.Blocks) == 0 {
+				return false
+			}
+			found := false
+			allInstrs(f, func(in ssa.Instruction) {
+				st, ok := in.(*ssa.Store)
+				if !ok || fieldOfAddr(st.Addr) != fFields {
+					return
+				}
+				if call, ok := stripValue(st.Val).(*ssa.Call); ok {
+					if bi, ok := call.Call.Value.(*ssa.Builtin); ok && bi.Name() == "append" {
+						// a removal (append(a[:i], a[i+1:]...)) is not an appender: its first operand is a reslice
+						if _, cut := stripValue(call.Call.Args[0]).(*ssa.Slice); !cut {
+							found = true
+						}
+					}
+				}
+			})
+			return found
+		}
+		registers := func(f *ssa.Function) bool {
+			if f == nil {
+				return false
+			}
+			return len(callsIn(f, func(cc *ssa.CallCommon) bool { return callsFunc(cc, setMerger) })) > 0
+		}
+		var appCalls, regCalls []ssa.Instruction
+		allInstrs(hs, func(in ssa.Instruction) {
+			cc := callCommon(in)
+			if cc == nil {
+				return
+			}
+			f := staticCallee(cc)
+			if isAppender(f) {
+				appCalls = append(appCalls, in)
+			}
+			if registers(f) {
+				regCalls = append(regCalls, in)
+			}
+		})
+		if fFields == nil || len(appCalls) == 0 {
+			r.undecided(rule, name, "extra:aggregates-merged", c.Pos(hs.Pos()), "no function appending helper columns found in HandleSelectStmt")
+		}
+		for i, a := range appCalls {
+			cons := fmt.Sprintf("extra:aggregates-merged:%s@%d", staticCallee(callCommon(a)).Name(), i+1)
+			good := false
+			for _, rc := range regCalls {
+				if instrDominates(a, rc) {
+					good = true
+				}
+			}
+			if good {
+				r.ok(rule, name, cons, c.Pos(a.Pos()), "aggregate mergers are registered after the helper columns were appended")
+			} else {
+				r.viol(rule, name, cons, c.Pos(a.Pos()), "helper columns are appended to the select list after the only place that registers aggregate mergers ran: an appended aggregate (ORDER BY SUM(x), GROUP BY on an aggregate alias) is not merged across shards and the rows are sorted/grouped by one shard's partial value")
+			}
+		}
+	}
+	// ---- (limit)
+	{
+		name := c.FuncName(hlimit)
+		fGroupBy := c.Field("parser/ast", "SelectStmt", "GroupBy")
+		fLimit := c.Field("parser/ast", "SelectStmt", "Limit")
+		cleared := false
+		for _, fn := range []*ssa.Function{hlimit, hs} {
+			var gbEdges []CondEdge
+			allInstrs(fn, func(in ssa.Instruction) {
+				b, ok := in.(*ssa.BinOp)
+				if !ok || b.Op != token.NEQ || !isNilConst(b.Y) || loadedField(b.X) != fGroupBy {
+					return
+				}
+				for _, e := range condEdges(b) {
+					if e.Val {
+						gbEdges = append(gbEdges, e)
+					}
+				}
+			})
+			allInstrs(fn, func(in ssa.Instruction) {
+				st, ok := in.(*ssa.Store)
+				if !ok || fieldOfAddr(st.Addr) != fLimit || !isNilConst(st.Val) {
+					return
+				}
+				if len(gbEdges) > 0 && edgesDominate(fn, gbEdges, st.Block()) {
+					cleared = true
+				}
+			})
+		}
+		if fGroupBy == nil || fLimit == nil {
+			r.undecided(rule, name, "limit:not-pushed-with-group-by", c.Pos(hlimit.Pos()), "ast.SelectStmt.GroupBy / Limit not found")
+		} else if cleared {
+			r.ok(rule, name, "limit:not-pushed-with-group-by", c.Pos(hlimit.Pos()), "with GROUP BY the LIMIT is removed from the statement sent to the shards and applied after the merge")
+		} else {
+			r.viol(rule, name, "limit:not-pushed-with-group-by", c.Pos(hlimit.Pos()), "a LIMIT is sent to every shard even when the statement has GROUP BY: each shard returns its own first n groups, so a group that is not among the first n on any single shard is lost and the others are aggregated from part of the shards")
+		}
+	}
+}
